@@ -234,7 +234,7 @@ def validate(run, ob, v, d):
         if rc1 == 77 or (rc1 not in (0, 1)): res['skipped'] += 1; continue      # assumption failed / left the int-exact regime
         if rl:
             rc2, out2 = run_native(rl, seed=seed)
-            if rc2 == 77: res['skipped'] += 1; continue
+            if rc2 == 77 or rc2 == 'timeout': res['skipped'] += 1; continue      # a native time-out during differential validation is not a verdict
             res['compared'] += 1
             if (rc1, sig(out1)) != (rc2, sig(out2)):
                 res['disagreements'].append(dict(seed=seed, translated=[rc1, out1[-600:]], real=[rc2, out2[-600:]]))
